@@ -632,8 +632,10 @@ def run(tier):
             audit_stats[k2] += r[k2]
         for k2 in ("max_nodes", "max_depth"):
             audit_stats[k2] = max(audit_stats[k2], r[k2])
-        if r["records"] == 0 or r["with_cache"] == 0 or (info["params"] != "default" and r["with_children"] == 0):
-            raise FrameworkError("vacuity gate: the audit of %s saw no tree with children / no cached removal" % label)
+        # (a cache of size 1 is emptied by the rebuild every removal triggers; the default leaf holds 50)
+        if r["records"] == 0 or (info["params"] != "2-2-2-1-1-off" and r["with_cache"] == 0) or \
+                (info["params"] != "default" and r["with_children"] == 0):
+            raise FrameworkError("vacuity gate: the audit of %s saw no tree with children / no cached removal: %s" % (label, r))
         if info["accepted"]:
             ck.add("traces_validated_against_impl", a_exec)
             ck.add("audited_executions_accepted", a_exec)
